@@ -154,7 +154,7 @@ func runE2E(run *vh.Run, c *vh.Chain, accts []*vh.Acct, n int) {
 				"result_tampered": map[string]any{"code": res[0].Code, "log": res[0].Log}, "result_second": map[string]any{"code": res[1].Code, "log": res[1].Log, "is_granter_rewrite": secondIsGranter}}
 		}
 		if res[0].Code == 0 {
-			run.Violation("e2e-tampered-transaction-admitted:"+field, label, w())
+			viol(run, "e2e-tampered-transaction-admitted:"+field, label, w())
 		} else if strings.Contains(res[0].Log, "signature verification failed") {
 			run.Count("e2e.tampered-refused", 1)
 			run.Count("e2e.tampered-refused:"+field, 1)
@@ -169,7 +169,7 @@ func runE2E(run *vh.Run, c *vh.Chain, accts []*vh.Acct, n int) {
 			run.Count("e2e.good-accepted:"+modeName, 1)
 			run.Nontrivial("e2e|" + modeName + "|accepted")
 		case !secondIsGranter && strings.Contains(res[1].Log, "signature verification failed"):
-			run.Violation("e2e-eip712-signed-transaction-refused:"+modeName, label, w())
+			viol(run, "e2e-eip712-signed-transaction-refused:"+modeName, label, w())
 		case !secondIsGranter:
 			run.Count("e2e.good-failed-for-another-reason", 1)
 			run.Distinct("e2e_logs", "good:"+trunc(res[1].Log, 120))
